@@ -251,9 +251,16 @@ def onExec (t : T) (o : COp) : T :=
     | none => t
   | .dropIdle i => { t with idleHandles := t.idleHandles.filter (·.1 != i) }
   | .enable k =>
-    -- documented: only a disabled source may be enabled, and never the one that is running
+    -- documented: only a disabled source may be enabled, and never the one that is running.  One case beside it is
+    -- judged: `enable` of an enabled source that sits on a single fd of its own (ping, channel, fd source) — the poller
+    -- refuses the second registration of the fd, the call fails, and a failed call leaves the source as it was
     match t.src k with
-    | some a => if a.status != .disabled || t.running == some k then { t with wf := false } else t
+    | some a =>
+      let refused := a.status == .enabled && t.running != some k &&
+        (a.kind == .ping || a.kind == .chan ||
+          (a.kind == .gen && !t.srcs.any (fun (p : Nat × ASrc) => p.1 != k && p.2.kind == .gen && p.2.fd == a.fd)))
+      if refused then t
+      else if a.status != .disabled || t.running == some k then { t with wf := false } else t
     | none => t
   | .insertd k =>
     let t := if t.inDispatch then t else { t with stBeforeInsert := t.lastSt }
